@@ -32,6 +32,8 @@ def bank_cfg(rng, kind=None, max_filts=40, gammatone_scope_c07=False):
     rate = int(rng.choice(RATES))
     kind = kind or str(rng.choice(CLASSES))
     nf = int(rng.integers(1, max_filts + 1))
+    if rng.random() < 0.03:
+        nf = int(rng.choice([100, 257]))  # extreme but valid
     sc = "mel" if kind == "fbank" else scale_cfg(rng)
     lo = 0.0 if rng.random() < 0.15 else float(rng.uniform(0, rate / 4))
     if isinstance(sc, dict) and sc["name"] == "octave":
@@ -55,6 +57,8 @@ def bank_cfg(rng, kind=None, max_filts=40, gammatone_scope_c07=False):
         cfg["erb"] = bool(rng.integers(2))
     else:
         cfg["order"] = int(rng.integers(3, 9)) if gammatone_scope_c07 else int(rng.integers(1, 9))
+        if rng.random() < 0.04:
+            cfg["order"] = int(rng.choice([12, 20]))
         cfg["max_centered"] = bool(rng.integers(2))
         cfg["scale_l2_norm"] = False if gammatone_scope_c07 else bool(rng.random() < 0.4)
         cfg["erb"] = bool(rng.integers(2))
